@@ -134,40 +134,43 @@ theorem create_ok {cfg : Cfg} (hpl : 0 < cfg.pl) (hlat : cfg.lat ≠ []) (o : Or
         intro c
         have := List.find?_eq_none.mp hfind c (by cases c <;> simp)
         simpa using this
-      have hst0 : fs.file? (entryDir cfg false) Name.status = none := by
-        cases hs : fs.file? (entryDir cfg false) Name.status with
-        | none => rfl
-        | some st =>
-          have := g.stdata (by simp [hs])
-          rw [hnone false, hnone true] at this; simp at this
       -- phase 1: the access time sidecar
       have hlN := latPlan_neutral cfg fs false
       generalize hc1 : latPlan cfg fs (entryDir cfg false) = c1 at *
       have hk1 := neutral_keeps c1 hlN fs
       have g1 : GoodFS cfg (applyAll fs c1) := goodFS_all (neutral_prefix g c1 hlN)
-      -- phase 2: MkdirAll, create and size the blob file
+      -- phase 2: MkdirAll
       have hmkN := mkdirAll_neutral cfg (applyAll fs c1) (entryDir cfg false)
       generalize hmk : mkdirAllPlan (applyAll fs c1) (entryDir cfg false) = mk at *
       have hk2 := neutral_keeps mk hmkN (applyAll fs c1)
       have g2 : GoodFS cfg (applyAll (applyAll fs c1) mk) := goodFS_all (neutral_prefix g1 mk hmkN)
       have hdir2 : ((applyAll (applyAll fs c1) mk).dir? (entryDir cfg false)).isSome = true := by
         rw [← hmk]; exact dir?_isSome_of_isDir (entryDir_ne_nil cfg false) (isDir_mkdirAllPlan' _ _)
-      obtain ⟨pD1, pD2, pD3⟩ := phaseD g2 (by simp only [dlStatus]; rw [hk2.2.1, hk1.2.1]; exact hst0)
-        (by simp only [caData]; rw [hk2.2.2, hk1.2.2]; exact hnone true) hdir2
-      have e2 : applyAll (applyAll fs c1) (mk ++ [Call.openTrunc (entryDir cfg false) Name.data,
-          Call.truncate (entryDir cfg false) Name.data cfg.blob.length]) =
-          applyAll (applyAll (applyAll fs c1) mk) [Call.openTrunc (entryDir cfg false) Name.data,
-          Call.truncate (entryDir cfg false) Name.data cfg.blob.length] := by rw [applyAll_append]
+      -- phase 3: what an earlier incarnation left behind is removed (a stale status vector in particular)
+      obtain ⟨l1, l2, l3, l4⟩ := leftoverPlan_result (applyAll (applyAll fs c1) mk) (entryDir cfg false)
+      have hloR := leftoverPlan_removal (applyAll (applyAll fs c1) mk) (entryDir cfg false)
+      generalize hlo : leftoverPlan (applyAll (applyAll fs c1) mk) (entryDir cfg false) = lo at *
+      have pL := removal_prefix lo hloR g2
+      have g3 : GoodFS cfg (applyAll (applyAll (applyAll fs c1) mk) lo) := goodFS_all pL
+      have hdir3 := l4 _ hdir2
+      -- phase 4: create and size the blob file
+      obtain ⟨pD1, pD2, pD3⟩ := phaseD g3 (by simp only [dlStatus]; exact l1)
+        (by simp only [caData]; rw [l2, hk2.2.2, hk1.2.2]; exact hnone true) hdir3
+      have e2 : applyAll (applyAll fs c1) (mk ++ (lo ++ [Call.openTrunc (entryDir cfg false) Name.data,
+          Call.truncate (entryDir cfg false) Name.data cfg.blob.length])) =
+          applyAll (applyAll (applyAll (applyAll fs c1) mk) lo) [Call.openTrunc (entryDir cfg false) Name.data,
+          Call.truncate (entryDir cfg false) Name.data cfg.blob.length] := by rw [applyAll_append, applyAll_append]
       rw [e2]
-      generalize hfs2 : applyAll (applyAll (applyAll fs c1) mk) [Call.openTrunc (entryDir cfg false) Name.data,
+      generalize hfs2 : applyAll (applyAll (applyAll (applyAll fs c1) mk) lo) [Call.openTrunc (entryDir cfg false) Name.data,
           Call.truncate (entryDir cfg false) Name.data cfg.blob.length] = fs2 at *
       -- prefixes up to here
-      have hpre2 : ∀ k, GoodFS cfg (applyPrefix k (c1 ++ (mk ++ [Call.openTrunc (entryDir cfg false) Name.data,
-          Call.truncate (entryDir cfg false) Name.data cfg.blob.length])) fs) :=
-        prefix_append _ _ _ _ (neutral_prefix g c1 hlN) (prefix_append _ _ _ _ (neutral_prefix g1 mk hmkN) pD1)
-      have hfs2' : applyAll fs (c1 ++ (mk ++ [Call.openTrunc (entryDir cfg false) Name.data,
-          Call.truncate (entryDir cfg false) Name.data cfg.blob.length])) = fs2 := by
-        rw [applyAll_append, applyAll_append, hfs2]
+      have hpre2 : ∀ k, GoodFS cfg (applyPrefix k (c1 ++ (mk ++ (lo ++ [Call.openTrunc (entryDir cfg false) Name.data,
+          Call.truncate (entryDir cfg false) Name.data cfg.blob.length]))) fs) :=
+        prefix_append _ _ _ _ (neutral_prefix g c1 hlN) (prefix_append _ _ _ _ (neutral_prefix g1 mk hmkN)
+          (prefix_append _ _ _ _ pL pD1))
+      have hfs2' : applyAll fs (c1 ++ (mk ++ (lo ++ [Call.openTrunc (entryDir cfg false) Name.data,
+          Call.truncate (entryDir cfg false) Name.data cfg.blob.length]))) = fs2 := by
+        rw [applyAll_append, applyAll_append, applyAll_append, hfs2]
       -- the new entry
       have hent : ∀ n ∈ (if latKnown fs (entryDir cfg false) = true then [Name.lat] else []),
           (fs2.file? (entryDir cfg false) n).isSome = true := by
@@ -175,7 +178,7 @@ theorem create_ok {cfg : Cfg} (hpl : 0 < cfg.pl) (hlat : cfg.lat ≠ []) (o : Or
         split at hn
         · rename_i hk
           simp only [List.mem_singleton] at hn; subst hn
-          rw [pD3 _ _ (by simp), mkdirs_keep_file mk (by rw [← hmk]; exact mkdirAllPlan_mkdirs' _ _), ← hc1]
+          rw [pD3 _ _ (by simp), l3, mkdirs_keep_file mk (by rw [← hmk]; exact mkdirAllPlan_mkdirs' _ _), ← hc1]
           exact latPlan_lat_isSome cfg hlat fs _ (entryDir_ne_nil cfg false) hk
         · simp at hn
       simp only [dlData] at pD2
